@@ -54,6 +54,9 @@ class UnboundedSampler(base.CallableMetric, base.HasAsAggFn):
     return self.__class__(_samples=samples, _multi_input=multi_input)
 
   def merge(self, other: Self) -> Self:
+    if not other.samples:
+      # Nothing to merge from an empty (fresh) sampler.
+      return self
     if not self._samples:
       self._samples = tuple([] for _ in other.samples)
       self._multi_input = other.multi_input
@@ -516,6 +519,9 @@ class ValueAccumulator(base.CallableMetric):
     return self.__class__(_data=tuple([x] for x in args))
 
   def merge(self, other: Self) -> None:
+    if not other.data:
+      # Nothing to merge from an empty (fresh) accumulator.
+      return
     if not self._data:
       self._data = tuple(other.data)
       return
